@@ -83,6 +83,7 @@ CanonOK(d, e, i) ==
 AllShow(o, fields, v) == \A f \in fields : (f \in DOMAIN o) => (o[f] = <<>> \/ o[f] = <<v>>)
 
 ViewsOK(d, v, o) ==
+  /\ "panic" \notin DOMAIN o
   /\ AllShow(o, {"into_inner", "as_ref", "deref", "borrow", "borrow2", "into", "clone", "iter", "iter_ref"}, v)
   /\ ("disp" \in DOMAIN o => \A j \in DOMAIN o.disp : o.disp[j][1] = o.disp[j][2])   \* <<newtype text, inner text>> per format spec
   /\ ("ptr" \in DOMAIN o => \A j \in DOMAIN o.ptr : o.ptr[j])                         \* views point into the wrapper
@@ -108,9 +109,9 @@ CmpOK(d, a, b, o) ==
   /\ (("eq" \in DOMAIN o /\ NInSeq("Eq", d.traits) /\ a = b) => o.eq)
 
 \* C10: the serialization is the serde-newtype encoding of the inner value
+\* (nothing is demanded when the format cannot encode the inner value at all, e.g. i128 in RON)
 SerOK(d, v, o) ==
-  /\ o.same          \* bytes equal the reference encoding (inner value for JSON/MessagePack, serde newtype for RON)
-  /\ o.k = "ok"
+  o.ref_ok => (o.k = "ok" /\ o.same)   \* bytes equal the reference encoding (inner value for JSON/MessagePack, serde newtype for RON)
 
 ObsBad(d, e, i) ==
   CASE e.ep = "views" -> ~ViewsOK(d, e.ins[i].v[1], e.outs[i])
@@ -126,13 +127,13 @@ StepCall(e, d) ==
       nanI == {i \in N : NanMatters(d, e.ins[i], EnvOf(e, i))}
       plain == N \ nanI
       anyNv == CodeNanPolicy
-      badPlain == {i \in plain : e.outs[i] # DeclCall(d, bep, e.ins[i], EnvOf(e, i), anyNv) \/ ~CanonOK(d, e, i)}
+      badPlain == {i \in plain : ~DeclOK(d, bep, e.ins[i], EnvOf(e, i), anyNv, e.outs[i]) \/ ~CanonOK(d, e, i)}
       cands == IF nanI = {} THEN {anyNv}
                ELSE {nv \in Policies : Compatible(nv, pol) /\
-                       \A i \in nanI : e.outs[i] = DeclCall(d, bep, e.ins[i], EnvOf(e, i), nv)}
+                       \A i \in nanI : DeclOK(d, bep, e.ins[i], EnvOf(e, i), nv, e.outs[i])}
       badNan == IF cands = {} THEN nanI ELSE {i \in nanI : ~CanonOK(d, e, i)}
       bad == badPlain \cup badNan
-      drift == {i \in N \ bad : e.outs[i] # OpCall(d, bep, e.ins[i], EnvOf(e, i))}
+      drift == {i \in N \ bad : e.outs[i] # OpCall(d, bep, e.ins[i], EnvOf(e, i)) /\ ~(bep = "deser" /\ ~e.ins[i].ok)}
   IN
     /\ \A i \in bad :
          PrintT(<<"BAD", l, i, ToJson([d |-> e.d, ep |-> e.ep, inp |-> e.ins[i], got |-> e.outs[i],
